@@ -17,11 +17,11 @@ def gen_script(rng, nops):
     njobs = 0
     jobs_meta = []
     for _ in range(rng.range(0, 3)):
-        k = rng.range(1, 2)
+        k = rng.range(0, 2)         # also jobs that require nothing: the entity alone, or optional components only -- they visit every entity
         reqs = []
         for p in sorted(set(rng.pick(pals) for _ in range(k))):
             reqs.append('%d:%d' % (p, rng.below(4)))
-        if not any(int(r.split(':')[1]) & 2 == 0 for r in reqs):
+        if reqs and not any(int(r.split(':')[1]) & 2 == 0 for r in reqs) and rng.chance(1, 2):
             reqs[0] = reqs[0].split(':')[0] + ':1'
         chk = [r.split(':')[0] for r in reqs if rng.chance(1, 3)]
         lines.append('mkjob 1 %s%s' % (' '.join(reqs), (' c ' + ' '.join(chk)) if chk else ''))
